@@ -167,7 +167,7 @@ Section Hooks.
     fail_if ((url || urlf) && (tok || tokf)) E_SLACK_PAIR ;;;
     if ib_update b then
       match ib_api_url b with
-      | None => Panic                      (* c.APIURL.String() on a nil *SecretURL *)
+      | None => Ok tt                      (* compared only when an api_url is given (fix 958998d; was a nil dereference) *)
       | Some u => fail_if (negb (String.eqb u "https://slack.com/api/chat.postMessage")) E_SLACK_UPDATE
       end
     else Ok tt.
@@ -215,9 +215,8 @@ Definition global_checks (g : dglobal) : res unit :=
   fail_if (pair_both (pair_at g 1)) E_GLOBAL_PAIR ;;;
   (if pair_any (pair_at g 0) && pair_any (pair_at g 1) then
      match g_slack_api_url g, g_slack_app_url g with
-     | None, _ => Panic                   (* c.Global.SlackAPIURL.String() with only slack_api_url_file set *)
-     | Some _, None => Panic              (* c.Global.SlackAppURL.String() after `slack_app_url: null` *)
      | Some a, Some b => fail_if (negb (String.eqb a b)) E_GLOBAL_PAIR
+     | _, _ => Err E_GLOBAL_PAIR          (* a nil URL counts as different (fix f0e00c0; was a nil dereference) *)
      end
    else Ok tt) ;;;
   fail_if (existsb pair_both (drop 2 (g_pairs g))) E_GLOBAL_PAIR.
@@ -315,8 +314,13 @@ Fixpoint uniq_check (seen : list string) (l : list string) : res unit :=
 (* the validated configuration *)
 Record cfg := Cfg { c_route : droute; c_receivers : list string; c_intervals : list string }.
 
+(* Config.UnmarshalYAML first restores an empty global block, and (fix 544060a) a global http_config that was
+   written as null; the receiver loops below still dereference c.Global.HTTPConfig *)
+Definition restore_http (g : dglobal) : dglobal :=
+  if Nat.eqb (g_http g) 0 then DGlobal 1 (g_slack_api_url g) (g_slack_app_url g) (g_pairs g) (g_provides g) else g.
+
 Definition config_checks (d : dcfg) : res cfg :=
-  let g := default default_global (d_global d) in
+  let g := restore_http (default default_global (d_global d)) in
   global_checks g ;;;
   receivers_check g [] (d_receivers d) ;;;
   match d_route d with
@@ -345,19 +349,3 @@ Definition load_validate (vl : string -> bool) (o : option dcfg) : res cfg :=
 
 Definition group_by_ok (r : droute) : Prop :=
   NoDup (group_labels r) /\ (group_all r = true -> group_labels r = []).
-
-(* ---------- vocabulary of the no-panic theorem ---------- *)
-(* the three shapes in which the validation dereferences a nil that is NOT a list item (findings, see Properties/C17.v) *)
-Definition slack_bodies (d : dcfg) : list ibody :=
-  flat_map (fun o => omap id (ints_of "slack" (recv_of o))) (d_receivers d).
-
-Definition global_deref_free (g : dglobal) : bool :=
-  negb (Nat.eqb (g_http g) 0) &&
-  (negb (pair_any (pair_at g 0) && pair_any (pair_at g 1)) ||
-   (negb (is_none (g_slack_api_url g)) && negb (is_none (g_slack_app_url g)))).
-
-Definition slack_update_free (b : ibody) : bool := negb (ib_update b) || negb (is_none (ib_api_url b)).
-
-Definition deref_free (d : dcfg) : bool :=
-  global_deref_free (default default_global (d_global d)) && forallb slack_update_free (slack_bodies d).
-
